@@ -1,8 +1,9 @@
 """Self-test of the translator work package.
- (a) regenerate `lean/TLX/Gen/Translated.lean` from the tree under test, prove `TLX.Props.Translated`, audit, require the
+ (a) regenerate `lean/TLX/Gen/Translated/<Group>.lean` from the tree under test, prove `TLX.Props.Translated.<Group>`, audit, require the
      `_eq_model` theorems; run the translator-vs-CPython selftest;
  (b) MUTATION TEST in a scratch worktree of /repo: single-line mutations of the translated Python functions — each must
-     make the proof stage fail (the regenerated definition no longer equals the model) — and behaviour-preserving
+     make the proof stage fail (the regenerated definition no longer equals the model) IN ITS OWN GROUP ONLY (every
+     other group's module still builds: a check of another property is not disturbed) — and behaviour-preserving
      rewrites, for which the outcome is reported (still proved / Untranslatable / proof no longer checks).
 run: cd /root/wt/tr && PYTHONPATH=/repo:harness /venv/bin/python -W ignore harness/tr_selftest.py [--no-mutations]"""
 import json
@@ -40,6 +41,14 @@ MUTATIONS = [
     ("tlexport/session.py", "        if self.client_hello_seen:\n            self.can_decrypt = True", "        if self.client_hello_seen:\n            self.can_decrypt = False", "server hello: latch clears"),
     ("tlexport/session.py", "        if packet.sport in server_ports:", "        if packet.dport in server_ports:", "set_client_and_server_ports: roles by destination port"),
     ("tlexport/session.py", "        elif (packet.ip_src == self.client_ip and packet.sport == self.client_port\n", "        elif (packet.ip_src == self.client_ip and packet.dport == self.client_port\n", "matches_session: wrong port"),
+    ("tlexport/session.py", "            if sequence in self.seen_packets_server:\n                return", "            if sequence in self.seen_packets_client:\n                return", "Session.handle_packet: duplicate test against the other direction"),
+    ("tlexport/session.py", "            self.seen_packets_client.append(sequence)\n", "            self.seen_packets_client.append(sequence + 1)\n", "Session.handle_packet: wrong sequence number remembered"),
+    ("tlexport/session.py", "        self.server_packet_buffer.sort(key=lambda x: (x.seq - base) % 2 ** 32)", "        self.server_packet_buffer.sort(key=lambda x: (x.seq - base) % 2 ** 31)", "extract_server_buf: sort key mod 2^31"),
+    ("tlexport/session.py", "            base = min(self.client_packet_buffer, key=lambda x: (x.seq - first + 2 ** 31) % 2 ** 32).seq", "            base = min(self.client_packet_buffer, key=lambda x: (x.seq - first) % 2 ** 32).seq", "extract_client_buf: unsigned presync distance"),
+    ("tlexport/session.py", "            self.server_next_seq = (base + total_packet_len) % 2 ** 32", "            self.server_next_seq = (base + total_packet_len)", "extract_server_buf: next_seq does not wrap"),
+    ("tlexport/session.py", "            if (self.client_packet_buffer[i].seq + len(self.client_packet_buffer[i].tls_data)) % 2 ** 32 != \\\n", "            if (self.client_packet_buffer[i].seq + len(self.client_packet_buffer[i].tls_data)) != \\\n", "extract_client_buf: contiguity without wrap"),
+    ("tlexport/quic/quic_session.py", "    QuicPacketType.RTT_O: (QuicPacketType.RTT_1, QuicPacketType.RTT_O),", "    QuicPacketType.RTT_O: (QuicPacketType.RTT_O,),", "PACKET_TYPE_MAP: 0-RTT in a space of its own"),
+    ("tlexport/quic/quic_session.py", "        self.packet_number_client = {(QuicPacketType.INITIAL,): 0, (QuicPacketType.HANDSHAKE,): 0,", "        self.packet_number_client = {(QuicPacketType.INITIAL,): 0, (QuicPacketType.HANDSHAKE,): 1,", "set_packet_number_spaces: a space starts at 1"),
     ("tlexport/main.py", "if ((int(packet.tls_data[0]) & 0x40) >> 6) == 1 or args.greasy:", "if ((int(packet.tls_data[0]) & 0x80) >> 7) == 1 or args.greasy:", "run: fixed bit is bit 7"),
     ("tlexport/main.py", "                if len(cid) > 0 and cid == packet_payload[1:1 + len(cid)]:", "                if cid == packet_payload[1:1 + len(cid)]:", "handle_quic_packet: empty CID matches"),
     ("tlexport/main.py", "                    candidates = session.server_cids\n", "                    candidates = session.client_cids\n", "handle_quic_packet: sender-side CIDs"),
@@ -65,6 +74,21 @@ REWRITES = [
 ]
 
 
+def group_of(what):
+    """the group(s) whose theorems a mutation/rewrite labelled `what` concerns"""
+    fn = what.split(":")[0]
+    table = {"get_header_type": ["QuicDissect"], "get_packet_type": ["QuicDissect"], "decode_variable_length_int": ["Varint"],
+             "get_variable_length_int_length": ["Varint"], "get_full_packet_number": ["Pn"], "check_key_epoch": ["QuicSess"],
+             "packet_isserver": ["QuicSess"], "matches_session_dgram": ["QuicSess"], "handle_alert": ["TlsSess"],
+             "handle_tls_client_hello": ["TlsSess"], "server hello": ["TlsSess"], "set_client_and_server_ports": ["Ports"],
+             "matches_session": ["Demux"], "run": ["Demux"], "OutputBuilder": ["Ports"], "QUICOutputbuilder": ["Ports"],
+             "Session.handle_packet": ["Reasm"], "extract_server_buf": ["Reasm"], "extract_client_buf": ["Reasm"],
+             "PACKET_TYPE_MAP": ["Pn"], "set_packet_number_spaces": ["Pn"]}
+    if fn == "handle_quic_packet":
+        return ["QuicDissect"] if "long header read" in what else ["Demux"]
+    return table[fn]
+
+
 def theorem_of_line(path):
     names, cur = {}, None
     for ln, line in enumerate(open(path).read().splitlines(), 1):
@@ -80,22 +104,30 @@ def theorem_of_line(path):
 
 
 def build_props(root):
-    """regenerate from `root`, build the theorem module → ('proved' | 'untranslatable' | 'proof-fails', details)"""
+    """regenerate from `root`, build every group's theorem module in one lake run →
+    (overall 'proved' | 'untranslatable' | 'proof-fails', details, set of groups that do not build)"""
+    failed, det, st = set(), [], "proved"
     try:
         translate.regen(root)
     except translate.TranslatorProblem as e:
-        return "untranslatable", [p["error"] for p in e.problems]
-    rc, out = fw.lake(["build", "TLX.Props.Translated"])
-    if rc == 0:
-        return "proved", []
-    props = os.path.join(fw.LEAN, "TLX", "Props", "Translated.lean")
-    names = theorem_of_line(props)
-    hit = []
-    for m in re.finditer(r"error: TLX/(Props|Lemmas|Gen)/Translated\.lean:(\d+):", out):
-        t = names.get(int(m.group(2))) if m.group(1) == "Props" else f"{m.group(1)}/Translated.lean:{m.group(2)}"
-        if t and t not in hit:
-            hit.append(t)
-    return "proof-fails", hit or [l for l in out.splitlines() if "error" in l][:3]
+        st, det = "untranslatable", [p["error"] for p in e.problems]
+        failed |= {p["group"] for p in e.problems}
+    rc, out = fw.lake(["build"] + translate.MODULES)
+    if rc != 0:
+        st = "proof-fails" if st == "proved" else st
+        for m in re.finditer(r"^- TLX\.(?:Props|Lemmas|Gen)\.Translated\.(\w+)\s*$", out, re.M):
+            failed.add(m.group(1))
+        for m in re.finditer(r"error: TLX/(Props|Lemmas|Gen)/Translated/(\w+)\.lean:(\d+):", out):
+            kind, g, ln = m.group(1), m.group(2), int(m.group(3))
+            failed.add(g)
+            t = (theorem_of_line(os.path.join(fw.LEAN, "TLX", "Props", "Translated", g + ".lean")).get(ln)
+                 if kind == "Props" else f"{kind}/Translated/{g}.lean:{ln}")
+            if t and t not in det:
+                det.append(t)
+        if not failed:
+            det = [l for l in out.splitlines() if "error" in l][:3]
+            failed.add("?")
+    return st, det, failed
 
 
 def edit(root, file, pairs):
@@ -119,29 +151,32 @@ def mutation_test():
     subprocess.run(["git", "-C", "/repo", "worktree", "add", "--detach", SCRATCH, "HEAD"], check=True, capture_output=True)
     rows, ok = [], True
     try:
-        st, det = build_props(SCRATCH)
+        st, det, failed = build_props(SCRATCH)
         print(f"  unmodified copy: {st}")
         ok &= st == "proved"
         for file, old, new, what in MUTATIONS:
             t0 = time.time()
             edit(SCRATCH, file, [(old, new)])
-            st, det = build_props(SCRATCH)
+            st, det, failed = build_props(SCRATCH)
             subprocess.run(["git", "-C", SCRATCH, "checkout", "--", file], check=True)
             caught = st != "proved"
-            ok &= caught
-            rows.append({"kind": "mutation", "what": what, "outcome": st, "where": det[:4]})
-            print(f"  MUTATION {'caught' if caught else 'MISSED'} [{st}] {what}: {'; '.join(str(d)[:120] for d in det[:3])}  ({time.time() - t0:.1f} s)")
+            scoped = failed == set(group_of(what))          # exactly the mutated function's group fails, all others build
+            ok &= caught and scoped
+            rows.append({"kind": "mutation", "what": what, "outcome": st, "where": det[:4], "failed_groups": sorted(failed), "scoped": scoped})
+            print(f"  MUTATION {'caught' if caught else 'MISSED'} [{st}] groups failing: {sorted(failed)} "
+                  f"{'(only its own)' if scoped else 'SCOPE VIOLATED, expected ' + str(group_of(what))} {what}: "
+                  f"{'; '.join(str(d)[:120] for d in det[:3])}  ({time.time() - t0:.1f} s)")
         for file, pairs, what in REWRITES:
             t0 = time.time()
             edit(SCRATCH, file, pairs)
-            st, det = build_props(SCRATCH)
+            st, det, failed = build_props(SCRATCH)
             subprocess.run(["git", "-C", SCRATCH, "checkout", "--", file], check=True)
-            rows.append({"kind": "rewrite", "what": what, "outcome": st, "where": det[:4]})
+            rows.append({"kind": "rewrite", "what": what, "outcome": st, "where": det[:4], "failed_groups": sorted(failed)})
             note = "still proved" if st == "proved" else ("loud: outside the subset" if st == "untranslatable" else "FALSE ALARM of the proof stage (harmless rewrite, proof script too rigid)")
             print(f"  REWRITE {note} [{st}] {what}: {'; '.join(str(d)[:120] for d in det[:3])}  ({time.time() - t0:.1f} s)")
     finally:
         subprocess.run(["git", "-C", "/repo", "worktree", "remove", "--force", SCRATCH], capture_output=True)
-        st, det = build_props("/repo")                       # leave the generated file as the unmodified /repo gives it
+        st, det, failed = build_props("/repo")               # leave the generated file as the unmodified /repo gives it
         print(f"  restored from /repo: {st}")
         ok &= st == "proved"
     return ok, rows
@@ -153,6 +188,11 @@ def main():
     translate.regen_into(ctx)
     ok = ctx.prove(translate.MODULES)
     ctx.require_theorems(translate.THEOREMS)
+    # the per-check wiring covers every group, names only existing theorems, and filters translator problems by group
+    used = {g for gs in translate.CHECK_GROUPS.values() for g in gs}
+    assert used == set(translate.GROUPS), used
+    for c, (mods, thms) in translate.BY_CHECK.items():
+        assert mods and all(t in ctx.theorems for t in thms), (c, [t for t in thms if t not in ctx.theorems])
     t1 = time.time()
     print(f"repo under test: {fw.REPO}")
     print(f"generated: {ctx.gen_tables}")
@@ -172,6 +212,8 @@ def main():
         mok, rows = mutation_test()
         n_mut = sum(1 for r in rows if r["kind"] == "mutation")
         n_caught = sum(1 for r in rows if r["kind"] == "mutation" and r["outcome"] != "proved")
+        n_scoped = sum(1 for r in rows if r["kind"] == "mutation" and r.get("scoped"))
+        print(f"  mutations that break exactly their own group and no other: {n_scoped}/{n_mut}")
         print(f"  mutations caught by the proof stage: {n_caught}/{n_mut}; rewrites: "
               + ", ".join(f"{r['outcome']}" for r in rows if r["kind"] == "rewrite") + f"  ({time.time() - t2:.1f} s)")
         bad |= not mok
